@@ -257,6 +257,9 @@ func genValue(r *Rng, d *hdesc) GV {
 		if len(d.values) > 0 && r.Intn(3) == 0 {
 			u = d.values[r.Intn(len(d.values))].Number
 		}
+		if d.tag && r.Intn(4) > 0 {
+			u &= 0xFFFFFF // what a tagged integer can carry
+		}
 		return GV{U: u}
 	default:
 		return GV{U: uint64(r.Intn(256))}
@@ -508,7 +511,11 @@ func checkLaws(c *Ctx, r *Rng, h *Helper, d *hdesc) {
 	var auth [16]byte
 	copy(auth[:], r.Bytes(16))
 	prior := genPrior(r, d, false)
-	p := packetFrom(prior, sec, auth, 2)
+	code := 2 // a reply: its salt-encrypted attributes are keyed by the request authenticator
+	if d.enc == 1 {
+		code = 1 // User-Password lives in Access-Requests, whose authenticator survives Encode
+	}
+	p := packetFrom(prior, sec, auth, code)
 	q := &radius.Packet{Code: 1, Identifier: 9, Secret: sec, Authenticator: auth}
 	v := genValue(r, d)
 	tag := byte(r.Pick(0, 1, 0x1f, 0x20, 0xff))
@@ -571,16 +578,45 @@ func checkLaws(c *Ctx, r *Rng, h *Helper, d *hdesc) {
 			}
 		}
 	}
-	// survives Encode -> Parse
+	// the String variants read what the byte variants read
+	stringLaws := func(pp *radius.Packet, where string) {
+		if h.GetString == nil || d.kind > 1 {
+			return
+		}
+		_, bv := h.Get(pp, q)
+		if _, sv := h.GetString(pp, q); sv != string(bv.B) {
+			c.Fail("spec", name+"_GetString", "law-strings", where, fmt.Sprintf("%q", sv), fmt.Sprintf("%q", bv.B), "GetString returns the text of what Get returns")
+		}
+		if h.LookupString != nil {
+			_, lv, lerr := h.Lookup(pp, q)
+			_, sv, serr := h.LookupString(pp, q)
+			if (lerr == nil) != (serr == nil) || sv != string(lv.B) {
+				c.Fail("spec", name+"_LookupString", "law-strings", where, fmt.Sprintf("%q %v", sv, serr), fmt.Sprintf("%q %v", lv.B, lerr), "LookupString returns the text of what Lookup returns")
+			}
+		}
+		if h.GetStrings != nil && h.Gets != nil {
+			_, gv, gerr := h.Gets(pp, q)
+			_, sv, serr := h.GetStrings(pp, q)
+			same := (gerr == nil) == (serr == nil) && len(gv) == len(sv)
+			for i := 0; same && i < len(gv); i++ {
+				same = sv[i] == string(gv[i].B)
+			}
+			if !same {
+				c.Fail("spec", name+"_GetStrings", "law-strings", where, fmt.Sprintf("%q %v", sv, serr), fmt.Sprintf("%d values %v", len(gv), gerr), "GetStrings returns the texts of what Gets returns")
+			}
+		}
+		c.TagOnly("law-strings")
+	}
+	stringLaws(p, "built packet")
+	// survives Encode -> Parse: the parsed packet carries the authenticator Encode computed; a reply is read
+	// together with the request it answers
 	if wire, err := p.Encode(); err == nil {
 		if p2, err := radius.Parse(wire, sec); err == nil {
-			p2.Authenticator = p.Authenticator // the reply authenticator was hashed; decryption uses the request's
 			tg2, got2, err := h.Lookup(p2, q)
-			if d.enc != 1 { // User-Password style decryption uses p's own authenticator, which Encode replaced
-				if err != nil || !gvEqual(d, v, got2) || (d.tag && tg2 != wantTag) {
-					c.Fail("spec", name+" Encode;Parse", "law-wire", fmt.Sprintf("%x/%d", v.B, v.U), fmt.Sprintf("%x/%d %v", got2.B, got2.U, err), "same value", "values survive Encode->Parse")
-				}
+			if err != nil || !gvEqual(d, v, got2) || (d.tag && tg2 != wantTag) {
+				c.Fail("spec", name+" Encode;Parse", "law-wire", fmt.Sprintf("%x/%d", v.B, v.U), fmt.Sprintf("%x/%d %v", got2.B, got2.U, err), "same value", "values survive Encode->Parse")
 			}
+			stringLaws(p2, "after Encode->Parse")
 		}
 	}
 	// Add appends
@@ -688,6 +724,12 @@ func init() {
 		}
 		c.Res.Extra = map[string]interface{}{"attributes": len(registry), "helper_functions": registryFuncs}
 		reps := c.N(3, 60)
+		classSize := map[string]int{}
+		for _, h := range registry {
+			if d, why := describe(h); d != nil && why == "" {
+				classSize[kindTag(d)]++
+			}
+		}
 		for _, h := range registry {
 			d, why := describe(h)
 			if d == nil {
@@ -699,7 +741,11 @@ func init() {
 				continue
 			}
 			kt := kindTag(d)
-			for k := 0; k < reps; k++ {
+			nrep := reps
+			if cs := classSize[kt]; cs > 0 && cs*reps < 40*reps/3 {
+				nrep = (40*reps/3 + cs - 1) / cs // every descriptor class gets a comparable number of sequences
+			}
+			for k := 0; k < nrep; k++ {
 				runHelperSeq(c, r, h, d, false, kt)
 				checkLaws(c, r, h, d)
 			}
@@ -757,6 +803,6 @@ func init() {
 		// helpers freshly generated from synthetic dictionaries, compiled into a second-stage binary
 		runSynthetic(c, r, c.N(3, 16), "C12")
 		c.RequireTags("synthetic-stage", "synth:law-set")
-		c.RequireTags("bytes", "bytes+tag", "bytes+enc1", "bytes+tag+enc2", "int", "int+tag", "ip4", "ip6", "ifid", "prefix", "date", "concat", "bytes+size", "bytes+vendor", "int+vendor", "law-set", "law-refused", "value-constants")
+		c.RequireTags("bytes", "bytes+tag", "bytes+enc1", "bytes+tag+enc2", "int", "int+tag", "ip4", "ip6", "ifid", "prefix", "date", "concat", "bytes+size", "bytes+vendor", "int+vendor", "law-set", "law-refused", "value-constants", "law-strings")
 	}
 }
